@@ -12,6 +12,7 @@ Decided statically (E1 layout types + structural pairing rules):
   aggregation-mode  project reduces with the reducer the caller asked for (read once per mode, tests on the mode decided)
   scalar-cells        scalar * factor is the product clipped by nan_to_num in every cell (cell-level interpreter)
   log-form            Factor.log is log(values + 1e-100): a shift, not a floor
+  difference-cells    factor - factor is a - b in every cell, a subtrahend of -inf left out (cell-level interpreter)
   cv-difference       CliqueVector.__sub__ is the sum with the operand negated by scalar multiplication (not Factor's log-domain `-`)
   results-writable    outside expand no read-only broadcast view reaches a returned factor (in-place forms work on derived factors)
   operators-allocate  the non in-place operators / reductions return a table allocated by the call (never an operand or a view of it)
@@ -152,6 +153,7 @@ def run(ctx):
     check_results_writable(ctx)
     check_cv_difference(ctx)
     check_scalar_cells(ctx)
+    check_difference_cells(ctx)
     check_log_form(ctx)
     check_axes_primitive(ctx)
     check_clique_vector(ctx)
@@ -240,6 +242,32 @@ def check_scalar_cells(ctx):
             ctx.ob('scalar-cells', fi, fi.node, CS.same(r.cell, want), '[%s * %s cell] must be %s (the product, clipped by nan_to_num); the code computes %s'
                    % (k, label, CS.show(want), CS.show(r.cell)), construct='%s * (%s cell)' % (k, label))
     ctx.floor('scalar-times-cell cases', n, 12)
+
+
+def check_difference_cells(ctx):
+    """factor - factor, cell by cell on the extended reals (engines/cellsem.py): the library's log-domain difference - a - b, except that a
+    subtrahend of -inf (a structural zero) is left out (the cell keeps a).  A subtrahend of +inf gives -inf like any other value."""
+    from ..engines import cellsem as CS
+    from ..normalise import normalised
+    fi0 = ctx.repo.func(FACTOR, 'Factor.__sub__')
+    methods = {q.split('.', 1)[1]: normalised(ctx.repo, f) for q, f in fi0.module.funcs.items() if q.startswith('Factor.') and q.count('.') == 1}
+    fi = methods['__sub__']
+    ctx.analysed(fi)
+    n = 0
+    for la, a in (('finite', CS.fin('x')), ('-inf', CS.NINF)):
+        for lb, b in (('finite', CS.fin('y')), ('-inf', CS.NINF), ('+inf', CS.PINF)):
+            want = a if b == CS.NINF else CS.add(a, CS.neg(b))
+            try:
+                r = CS.Interp(methods).call_method('__sub__', CS.Fac(a), [CS.Fac(b)])
+            except AnalysisError as e:
+                raise AnalysisError('Factor.__sub__ [%s - %s]: %s' % (la, lb, e))
+            if not isinstance(r, CS.Fac):
+                raise AnalysisError('Factor.__sub__ [%s - %s]: does not return a factor' % (la, lb))
+            n += 1
+            ctx.ob('difference-cells', fi, fi.node, CS.same(r.cell, want),
+                   '[%s cell - %s cell] must be %s (the difference; a subtrahend of -inf, a structural zero, is left out); the code computes %s'
+                   % (la, lb, CS.show(want), CS.show(r.cell)), construct='(%s cell) - (%s cell)' % (la, lb))
+    ctx.floor('factor-minus-factor cell cases', n, 6)
 
 
 def check_log_form(ctx):
